@@ -1,4 +1,5 @@
 pub mod ftcore;
+pub mod vaultx;
 
 pub mod c01;
 pub mod c02;
